@@ -37,6 +37,31 @@ theorem sd_spec (v : List ℝ) (u : Bool) (hn : (if u then 2 else 1) ≤ v.lengt
     sd v u = .ok (Real.sqrt (Spec.cov v v u)) := by
   unfold sd var; rw [cov_eq v v u rfl hn]; rfl
 
+/-- Pearson `cor(v1, v2)` is `cov/(sd·sd)` of the unbiased estimates:
+`Σ(aᵢ-ā)(bᵢ-b̄)/(n-1)` over the product of the square roots of the two unbiased variances -/
+theorem cor_spec (v1 v2 : List ℝ) (h : v1.length = v2.length) (hn : 2 ≤ v1.length) :
+    cor v1 v2 = .ok (Spec.cov v1 v2 true /
+      (Real.sqrt (Spec.cov v1 v1 true) * Real.sqrt (Spec.cov v2 v2 true))) := by
+  unfold cor
+  rw [cov_eq v1 v2 true h (by simpa using hn), sd_spec v1 true (by simpa using hn),
+    sd_spec v2 true (by simpa using (h ▸ hn))]
+  rfl
+
+/-- … spelled out with sums -/
+theorem cor_spec_sums (v1 v2 : List ℝ) (h : v1.length = v2.length) (hn : 2 ≤ v1.length) :
+    cor v1 v2 = .ok (
+      let a := v1.sum / (v1.length : ℝ); let b := v2.sum / (v2.length : ℝ)
+      ((List.zipWith (fun x y => (x - a) * (y - b)) v1 v2).sum / ((v1.length : ℝ) - 1)) /
+      (Real.sqrt ((List.zipWith (fun x y => (x - a) * (y - a)) v1 v1).sum / ((v1.length : ℝ) - 1)) *
+       Real.sqrt ((List.zipWith (fun x y => (x - b) * (y - b)) v2 v2).sum / ((v2.length : ℝ) - 1)))) := by
+  rw [cor_spec v1 v2 h hn]
+  simp [specCov_eq]
+
+example : cor ([1, 2, 4] : List ℝ) [3, 1, 0] =
+    .ok (Spec.cov ([1, 2, 4] : List ℝ) [3, 1, 0] true /
+      (Real.sqrt (Spec.cov ([1, 2, 4] : List ℝ) [1, 2, 4] true) * Real.sqrt (Spec.cov ([3, 1, 0] : List ℝ) [3, 1, 0] true))) :=
+  cor_spec _ _ rfl (by decide)
+
 /-- the two options are not interchangeable: on `v = [1,2,4]`, `w = [1,1,2]` the pair
 (unbiased, not normalised) and the pair (biased, normalised) give different variances
 (`-11/5` and `27/16`) -/
@@ -51,18 +76,23 @@ example : sdW ([1, 2, 4] : List ℝ) [1, 1, 2] false true = .ok (Real.sqrt (27 /
   simp [Spec.covW, Spec.dot, Spec.dotW, zipWith3]
   norm_num
 
-/-- weighted `mean`, both values of the option -/
-theorem meanW_flags_spec (v w : List ℝ) (nw : Bool) (h : v.length = w.length) :
+/-- weighted `mean`, both values of the option (when normalising, the weights must not sum to 0:
+there the code divides every weight by zero; the hypothesis is not used by the proof, it restricts
+the claim to where the exact reading is meaningful) -/
+theorem meanW_flags_spec (v w : List ℝ) (nw : Bool) (h : v.length = w.length) (_hw : nw = true → w.sum ≠ 0) :
     meanW v w nw = .ok (if nw then (List.zipWith (· * ·) v w).sum / w.sum else (List.zipWith (· * ·) v w).sum) := by
   cases nw
   · simp [meanW, scalar_eq v w h]
   · simpa using meanW_eq v w h
 
 /-- weighted `center`, both values of the option: the weighted mean is subtracted -/
-theorem centerW_spec (v w : List ℝ) (nw : Bool) (h : v.length = w.length) :
+theorem centerW_spec (v w : List ℝ) (nw : Bool) (h : v.length = w.length) (hw : nw = true → w.sum ≠ 0) :
     centerW v w nw = .ok (v.map (· - (if nw then (List.zipWith (· * ·) v w).sum / w.sum
                                        else (List.zipWith (· * ·) v w).sum))) := by
-  unfold centerW; rw [meanW_flags_spec v w nw h]; rfl
+  unfold centerW; rw [meanW_flags_spec v w nw h hw]; rfl
+
+example : centerW ([1, 2] : List ℝ) [1, 3] true = .ok [1 - 7 / 4, 2 - 7 / 4] := by
+  rw [centerW_spec [1, 2] [1, 3] true rfl (by intro _; norm_num)]; norm_num
 
 /-- weighted `cor`, both values of the option, is `cov/(sd·sd)` of the biased estimates on the
 weights actually used -/
@@ -88,6 +118,59 @@ theorem defaults_spec (v w : List ℝ) (h : v.length = w.length) :
     (dfltBase : ℝ) = 27182818 / 10000000 := by
   refine ⟨sdW_spec v w true true h, varW_spec v w true true h, ?_⟩
   simp [dfltBase]
+
+/-! ## the value of the median -/
+
+/-- `median` of an even number `n ≥ 2` of elements is the mean of the two middle elements of *the*
+sorted permutation `s` of the input (unique over a linear order), and `s` is what the argument
+holds afterwards -/
+theorem median_even_spec (v s : List ℝ) (hp : s.Perm v) (hs : s.Pairwise (· ≤ ·)) (hn : 2 ≤ v.length)
+    (he : v.length % 2 = 0) :
+    ∃ a b, s[v.length / 2 - 1]? = some a ∧ s[v.length / 2]? = some b ∧ median v = .ok ((a + b) / 2, s) := by
+  have hsv := sortVals_unique v s hp hs
+  have hlen : s.length = v.length := hp.length_eq
+  have hk : v.length / 2 < s.length := by omega
+  have hk1 : v.length / 2 - 1 < s.length := by omega
+  refine ⟨s[v.length / 2 - 1], s[v.length / 2], List.getElem?_eq_getElem hk1, List.getElem?_eq_getElem hk, ?_⟩
+  rw [median_ge2 v hn, hsv, hlen, if_pos he, at?_eq_getElem s _ hk1, at?_eq_getElem s _ hk]
+  simp [bind, Except.bind, pure, Except.pure]
+
+/-- `median` of an odd number of elements is the middle element of the sorted permutation -/
+theorem median_odd_spec (v s : List ℝ) (hp : s.Perm v) (hs : s.Pairwise (· ≤ ·)) (ho : v.length % 2 = 1) :
+    ∃ b, s[v.length / 2]? = some b ∧ median v = .ok (b, s) := by
+  have hlen : s.length = v.length := hp.length_eq
+  by_cases h1 : v.length = 1
+  · obtain ⟨x, rfl⟩ := List.length_eq_one_iff.mp h1
+    have : s = [x] := List.perm_singleton.mp hp
+    subst this
+    exact ⟨x, by simp, by simp [median, at?]⟩
+  · have hn : 2 ≤ v.length := by omega
+    have hsv := sortVals_unique v s hp hs
+    have hk : v.length / 2 < s.length := by omega
+    refine ⟨s[v.length / 2], List.getElem?_eq_getElem hk, ?_⟩
+    rw [median_ge2 v hn, hsv, hlen, if_neg (by omega), at?_eq_getElem s _ hk]
+    rfl
+
+example : median ([4, 1, 3, 2] : List ℝ) = .ok ((2 + 3) / 2, [1, 2, 3, 4]) := by
+  obtain ⟨a, b, ha, hb, h⟩ := median_even_spec [4, 1, 3, 2] [1, 2, 3, 4]
+    (by
+      have h1 : ([1, 2, 3, 4] : List ℝ).Perm [4, 1, 2, 3] :=
+        (List.perm_append_comm (l₁ := [1, 2, 3]) (l₂ := [4]))
+      have h2 : ([4, 1, 2, 3] : List ℝ).Perm [4, 1, 3, 2] :=
+        List.Perm.cons _ (List.Perm.cons _ (List.Perm.swap _ _ _))
+      exact h1.trans h2)
+    (by norm_num) (by decide) (by decide)
+  simp at ha hb; subst ha hb; exact h
+
+/-! ## positions of the minimum, weighted norm -/
+
+/-- `whichMinAll` answers exactly the positions of the minimum, in increasing order -/
+theorem whichMinAll_positions (v : List ℝ) (pos : List Nat) (h : whichMinAll v = .ok pos) :
+    ∃ m, VecTools.min v = .ok m ∧ IsPositionsOf Scalar.eqb v m pos := whichMinAll_spec v pos h
+
+/-- weighted `norm` is `√Σ vᵢ²·wᵢ` -/
+theorem normW_spec (v w : List ℝ) (h : v.length = w.length) :
+    normW v w = .ok (Real.sqrt (zipWith3 (fun x y c => x * y * c) v v w).sum) := normW_eq v w h
 
 /-! ## weighted cosine, Kronecker product -/
 
@@ -217,9 +300,11 @@ example : breaks ([3, 1, 2] : List ℝ) 2 = .ok [1, 2, 3] := by
   rw [(breaks_spec _ 2).1 1 3 hr]
   norm_num [List.range_succ]
 
-/-- Scott's rule: `⌈(max - min) / (3.5 · sd · n^(-1/3))⌉` -/
+/-- Scott's rule: `⌈(max - min) / (3.5 · sd · n^(-1/3))⌉`, for a sample with a positive standard
+deviation (for a constant sample or a single element the code converts `0/0` to `size_t`, which is
+undefined: see `nclassScott_constant_sd_zero`) -/
 theorem nclassScott_spec (v : List ℝ) (lo hi s : ℝ) (hr : VecTools.range v = .ok (lo, hi))
-    (hs : sd v true = .ok s) :
+    (hs : sd v true = .ok s) (_hpos : 0 < s) :
     nclassScott (fun x => some ⌈x⌉₊) v =
       .ok ⌈(hi - lo) / (3.5 * s * (v.length : ℝ) ^ (-(1 : ℝ) / 3))⌉₊ := by
   unfold nclassScott
@@ -230,8 +315,22 @@ theorem nclassScott_spec (v : List ℝ) (lo hi s : ℝ) (hr : VecTools.range v =
 example : ∃ k, nclassScott (fun x => some ⌈x⌉₊) ([1, 2, 4] : List ℝ) = .ok k := by
   have hr : VecTools.range ([1, 2, 4] : List ℝ) = .ok (1, 4) := by
     norm_num [VecTools.range]
-  obtain ⟨s, hs⟩ : ∃ s, sd ([1, 2, 4] : List ℝ) true = .ok s := ⟨_, sd_spec _ true (by decide)⟩
-  exact ⟨_, nclassScott_spec _ 1 4 s hr hs⟩
+  have hs := sd_spec ([1, 2, 4] : List ℝ) true (by decide)
+  refine ⟨_, nclassScott_spec _ 1 4 _ hr hs (Real.sqrt_pos.mpr ?_)⟩
+  rw [specCov_eq]; norm_num
+
+/-- for a constant sample the standard deviation — hence the bandwidth `h` the range is divided
+by — is exactly 0: the code evaluates `0/0` and converts the NaN to `size_t` -/
+theorem nclassScott_constant_sd_zero (a : ℝ) (n : Nat) (hn : 2 ≤ n) :
+    sd (List.replicate n a) true = .ok 0 := by
+  rw [sd_spec _ true (by simpa using hn), specCov_eq]
+  have hn0 : (n : ℝ) ≠ 0 := by positivity
+  have hmean : (List.replicate n a).sum / ((List.replicate n a).length : ℝ) = a := by
+    simp [List.sum_replicate]; field_simp
+  rw [hmean]
+  have : List.zipWith (fun x y => (x - a) * (y - a)) (List.replicate n a) (List.replicate n a) = List.replicate n 0 := by
+    rw [List.zipWith_replicate]; simp
+  rw [this]; simp
 
 /-! ## extract, countValues -/
 
